@@ -314,6 +314,14 @@ def totuple(t):
 
 # ---- oracle ----------------------------------------------------------------------
 
+def _ser(node):
+    from mc.checks.c05 import serialise
+    try:
+        return json.dumps(serialise(node))[:300]
+    except Exception:
+        return "<unprintable>"
+
+
 def check_tree(t):
     """Returns (sub_oracle, detail) or None; plus info tuple (changed?, outcome key)."""
     from dagrt.codegen.dag_ast import simplify_ast
@@ -351,7 +359,7 @@ def check_tree(t):
             list(get_statements_in_ast(res))
         except Exception as e:
             return ("not-consumable", "the library's own get_statements_in_ast cannot walk the simplified block: "
-                    "%s: %s; result %s" % (type(e).__name__, e, str(res).replace("\n", " | ")[:300])), None
+                    "%s: %s; result %s" % (type(e).__name__, e, _ser(res))), None
     # feed the result back (it is an input of the same language)
     try:
         res2 = simplify_ast(res)
